@@ -176,6 +176,28 @@ def _norm_cmp(fn, c, sense):
         pred = neg[pred]
     return pred, c.ops[0], c.ops[1]
 
+_BE = {}
+def _by_evaluation(mod, fn, inst, kind):
+    """second opinion for a store the idiom table does not know: evaluate the enclosing function path by path from the descriptor invariant
+    (nsa/bufeval.py); proven iff the function is evaluated to the end, every occurrence of the store is inside the buffer (resp. keeps the
+    cursor invariant) and the invariant holds at every return"""
+    from . import bufeval
+    key = (id(mod), fn.name)
+    if key not in _BE:
+        _BE[key] = bufeval.analyse_writer(mod, fn)
+    r = _BE[key]
+    if not r or r[0] != 'ok':
+        return False, (r[1] if r else 'not a descriptor function')
+    recs = [x for x in (r[1] if kind == 'store' else r[2]) if x[0] is inst]
+    if not recs:
+        return False, 'the store is not reached on any evaluated path'
+    bad = [x for x in recs if not x[-2 if kind == 'store' else 2]]
+    if bad:
+        return False, bad[0][-1]
+    if not all(r[3]):
+        return False, 'the descriptor invariant 0 <= pos <= len does not hold at every return of %s' % fn.name
+    return True, 'E4m: %d path occurrence(s) evaluated, all inside [0, len)' % len(recs) if kind == 'store' else 'E4m: cursor stays in [0, len] on %d path occurrence(s)' % len(recs)
+
 def check_emit_bounds(mod, rep, rid):
     writers = buffer_writers(mod)
     if not writers:
@@ -218,6 +240,10 @@ def check_emit_bounds(mod, rep, rid):
                                     ok = True
                         if not ok:
                             why = 'the cursor is advanced without the guard pos < len on the same value'
+                if not ok:
+                    ok2, why2 = _by_evaluation(mod, fn, i, 'field')
+                    if ok2:
+                        ok = True
                 rep.instance(rid, 'cursor written at %s' % i.where())
                 rep.oblig(rid, ok)
                 if not ok:
@@ -242,6 +268,12 @@ def check_emit_bounds(mod, rep, rid):
             if addr is None or _start_root(mod, fn, addr) is None:
                 continue
             ok, why = _prove_store(mod, fn, i, addr, size_arg)
+            if not ok:
+                ok2, why2 = _by_evaluation(mod, fn, i, 'store')
+                if ok2:
+                    ok, why = True, why2
+                elif why2:
+                    why = why + '; path evaluation: ' + str(why2)
             rep.instance(rid, 'store through the buffer at %s: %s' % (i.where(), why if ok else 'UNPROVEN'))
             rep.oblig(rid, ok)
             if not ok:
